@@ -19,29 +19,29 @@ func checkC20(r *Run) {
 	r.NotDec = "directory fsync / power-loss durability beyond the ordered-write crash model; behaviour of rename on non-POSIX file systems"
 	// R1: enumerate mutator call sites
 	reviewed := map[string]string{
-		"util/file.writeFileSync|os.OpenFile":        "the temporary sibling written by SaveBinary",
-		"util/file.SaveBinary|os.Rename":             "atomic replace of the target by the fully written temporary",
-		"util/file.removeTmpFile|os.Remove":          "removes only the temporary on failure",
-		"util/file.SaveJSONSafe|os.OpenFile":         "O_EXCL create: never touches an existing file",
-		"util/file.IsWritable|os.OpenFile":           "probe without O_TRUNC (checked below)",
-		"util/file.IsWritable|os.Remove":             "removes the probe file only if it did not exist before (checked below)",
-		"util/file.CopyFile|os.Create":               "destination of an explicit copy (db backup), never a live wallet/kv file",
-		"util/file.copyFile|os.Create":               "destination of an explicit copy (db backup), never a live wallet/kv file",
-		"visor.moveCorruptDB|os.Rename":              "moves a database already classified corrupt aside",
-		"visor.backupDB|os.Create":                   "writes a new backup file path",
-		"visor.copyCorruptDB|os.Create":              "writes a new corrupt-db copy path",
-		"skycoin.createCertFiles|ioutil.WriteFile":   "generates new TLS cert/key files at start-up",
-		"skycoin.Coin.Run|os.Create":                 "CPU profile output file",
-		"skycoin.Coin.initLogFile|os.OpenFile":       "log file opened with O_APPEND",
-		"skycoin.Coin.Run$1|os.Create":               "profile output",
-		"kvstorage.Manager.RemoveStorage|os.Remove":  "explicit removal of a storage requested through the API",
-		"kvstorage.newKVStorage|os.Rename":           "moves an unreadable storage file aside before re-initialising it",
-		"wallet.backupWltFile|os.Rename":             "legacy backup of an old-format wallet file",
-		"daemon/pex.Pex.loadCache|os.Remove":         "removes the obsolete peers.txt cache",
-		"skycoin.createCertFiles|os.Remove":          "removes the just-created cert when writing the key failed",
-		"util/file.Copy|os.Create":                   "destination of an explicit copy (db backup), never a live wallet/kv file",
-		"util/file.SaveJSONSafe|os.Remove":           "removes the file it just created with O_EXCL when the write failed",
-		"wallet.removeBackupFiles|os.Remove":         "removes legacy .wlt.bak files of version 0.1 wallets whose .wlt exists and loads",
+		"util/file.writeFileSync|os.OpenFile":       "the temporary sibling written by SaveBinary",
+		"util/file.SaveBinary|os.Rename":            "atomic replace of the target by the fully written temporary",
+		"util/file.removeTmpFile|os.Remove":         "removes only the temporary on failure",
+		"util/file.SaveJSONSafe|os.OpenFile":        "O_EXCL create: never touches an existing file",
+		"util/file.IsWritable|os.OpenFile":          "probe without O_TRUNC (checked below)",
+		"util/file.IsWritable|os.Remove":            "removes the probe file only if it did not exist before (checked below)",
+		"util/file.CopyFile|os.Create":              "destination of an explicit copy (db backup), never a live wallet/kv file",
+		"util/file.copyFile|os.Create":              "destination of an explicit copy (db backup), never a live wallet/kv file",
+		"visor.moveCorruptDB|os.Rename":             "moves a database already classified corrupt aside",
+		"visor.backupDB|os.Create":                  "writes a new backup file path",
+		"visor.copyCorruptDB|os.Create":             "writes a new corrupt-db copy path",
+		"skycoin.createCertFiles|ioutil.WriteFile":  "generates new TLS cert/key files at start-up",
+		"skycoin.Coin.Run|os.Create":                "CPU profile output file",
+		"skycoin.Coin.initLogFile|os.OpenFile":      "log file opened with O_APPEND",
+		"skycoin.Coin.Run$1|os.Create":              "profile output",
+		"kvstorage.Manager.RemoveStorage|os.Remove": "explicit removal of a storage requested through the API",
+		"kvstorage.newKVStorage|os.Rename":          "moves an unreadable storage file aside before re-initialising it",
+		"wallet.backupWltFile|os.Rename":            "legacy backup of an old-format wallet file",
+		"daemon/pex.Pex.loadCache|os.Remove":        "removes the obsolete peers.txt cache",
+		"skycoin.createCertFiles|os.Remove":         "removes the just-created cert when writing the key failed",
+		"util/file.Copy|os.Create":                  "destination of an explicit copy (db backup), never a live wallet/kv file",
+		"util/file.SaveJSONSafe|os.Remove":          "removes the file it just created with O_EXCL when the write failed",
+		"wallet.removeBackupFiles|os.Remove":        "removes legacy .wlt.bak files of version 0.1 wallets whose .wlt exists and loads",
 	}
 	n := 0
 	for _, fn := range r.P.ModFns {
